@@ -31,6 +31,7 @@ fn begin(log: &Log, tid: usize, idx: usize, op: &Op) -> usize {
         res: Res::Incomplete,
         opt: OptAfter::NotOption,
         reg: None,
+        reg_last: None,
         polls: 0,
         probes: Vec::new(),
         repoll: None,
@@ -111,7 +112,7 @@ pub fn run_lock_case(case: Rc<Case>, log: Log) {
                         let before = rt::exec::own_steps();
                         let g = sh2.m.try_lock();
                         let took = rt::exec::own_steps() - before;
-                        if took > 8 {
+                        if took > 64 {
                             rt::violation("lock/try-waited", format!("try_lock took {} scheduling decisions of its own: it waited", took));
                         }
                         match g {
